@@ -173,12 +173,12 @@ PENDING_FINDINGS = [
  dict(id='C10-eval-default-resolver-capacity', harness='ev_pad_old', exclude_define='KF_C10_EVAL_DEFAULT_RESOLVER_CAPACITY', witness_config={'MAXE': 3, 'RES': 0},
       witness_inputs=['0x3', '0x3', '0x0', '0x0', '0x0', '0x0', '0x0', '0x1', '0x0', '0x0', '0x0', '0x1', '0x1', '0x1', '0x0', '0x0', '0x0', '0x2'],
       what=_WHAT_KF + 'Witness: capacity 16, a of shape (3,3) padded by (1,1,1,0): shape (5,4) = 20 elements.'),
- dict(id='C10-eval-default-resolver-capacity', harness='ev_tile_old4', exclude_define='KF_C10_EVAL_DEFAULT_RESOLVER_CAPACITY', witness_config={'MAXE': 2, 'RES': 3},
+ dict(id='C10-eval-default-resolver-capacity', harness='ev_tile_old4', exclude_define='KF_C10_EVAL_DEFAULT_RESOLVER_CAPACITY', witness_config={'MAXE': 2, 'RES': 3, 'SH0': 1, 'SH1': 2},
       witness_inputs=['0x1', '0x2', '0x0', '0x0', '0x0', '0x0', '0x2', '0x2', '0x0', '0x1'],
-      what=_WHAT_KF + 'Witness: capacity 4, a of shape (1,2), tile reps (2,2): the view has shape (2,4) = 8 elements (inside both the symbolic MAXE=2 and the constant-shape SH0=1,SH1=2 domains).'),
- dict(id='C10-eval-default-resolver-capacity', harness='ev_pad_old4', exclude_define='KF_C10_EVAL_DEFAULT_RESOLVER_CAPACITY', witness_config={'MAXE': 2, 'RES': 3},
+      what=_WHAT_KF + 'Witness: capacity 4, a of shape (1,2), tile reps (2,2): the view has shape (2,4) = 8 elements (replayed with the constant shape SH0=1,SH1=2 whatever shape the query itself fixes: the finding is the call site, every operand shape whose view outgrows the capacity shows it).'),
+ dict(id='C10-eval-default-resolver-capacity', harness='ev_pad_old4', exclude_define='KF_C10_EVAL_DEFAULT_RESOLVER_CAPACITY', witness_config={'MAXE': 2, 'RES': 3, 'SH0': 1, 'SH1': 2},
       witness_inputs=['0x1', '0x2', '0x0', '0x0', '0x0', '0x0', '0x1', '0x1', '0x1', '0x0', '0x0', '0x2', '0x0'],
-      what=_WHAT_KF + 'Witness: capacity 4, a of shape (1,2) padded by (1,1,1,0): shape (3,3) = 9 elements (inside both the symbolic MAXE=2 and the constant-shape SH0=1,SH1=2 domains).'),
+      what=_WHAT_KF + 'Witness: capacity 4, a of shape (1,2) padded by (1,1,1,0): shape (3,3) = 9 elements (replayed with the constant shape SH0=1,SH1=2 whatever shape the query itself fixes: the finding is the call site, every operand shape whose view outgrows the capacity shows it).'),
 ]
 _WHAT_NEG = ('array::%s(a, b, axis) with a NEGATIVE axis evaluates exactly what view::%s builds, and that view ignores a negative axis (same defect as the open finding C04-concatenate-negative-axis: '
              'index::shape_concatenate / index::concatenate compare the loop counter with the raw axis): eager and lazy agree with each other but not with NumPy. ')
